@@ -162,7 +162,7 @@ pub fn run(input: &Value) -> Case {
     let nflush = ops.iter().filter(|o| matches!(o, Op::Flush)).count();
     let mut tags = vec![
         format!("ops={}", match ops.len() { 0..=4 => "1-4", 5..=12 => "5-12", 13..=30 => "13-30", _ => ">30" }),
-        format!("max_chunks={}", max_chunks.min(6)),
+        format!("max_chunks={}", if max_chunks > 32 { ">32".to_string() } else if max_chunks > 6 { "7-32".to_string() } else { max_chunks.to_string() }),
         format!("split_front={}", split),
         format!("drop_discards={}", dropped),
         format!("panic={}", panicked),
@@ -405,7 +405,39 @@ fn gen_amount(rng: &mut Rng) -> usize {
     }
 }
 
+/// many tiny frames: more chunks than the render loop's drop threshold (32) and than any small
+/// power of two a container might grow by
+fn gen_many_chunks(rng: &mut Rng) -> Vec<Op> {
+    let frames = 30 + rng.below(45) as usize;
+    let mut ops = vec![];
+    for i in 0..frames {
+        let len = 1 + rng.below(2) as usize;
+        ops.push(Op::Write(rng.bytes(len)));
+        ops.push(Op::Flush);
+        if rng.chance(1, 9) {
+            ops.push(Op::ConsumeWith(1 + rng.below(3) as usize, true));
+        }
+        if i > 33 && rng.chance(1, 25) {
+            ops.push(Op::Drop);
+        }
+    }
+    match rng.below(3) {
+        0 => ops.push(Op::Drop),
+        1 => {
+            for _ in 0..rng.below(40) {
+                ops.push(Op::Read(1 + rng.below(3) as usize));
+            }
+        }
+        _ => {}
+    }
+    ops.push(Op::ReadToEnd);
+    ops
+}
+
 pub fn gen_ops(rng: &mut Rng) -> Vec<Op> {
+    if rng.chance(1, 40) {
+        return gen_many_chunks(rng);
+    }
     let n = match rng.below(20) {
         0..=1 => 1 + rng.below(4),
         2..=12 => 5 + rng.below(10),
